@@ -66,7 +66,8 @@ Qed.
 
 Lemma enum_new_is_ecol data values c : enum_new data values = Ok c -> exists d vals st, c = ECol d vals st.
 Proof.
-  rewrite enum_new_unfold. destruct (N.to_nat c_maxCardinality <? length values); [discriminate|]. cbv zeta.
+  rewrite enum_new_unfold. destruct (N.to_nat c_maxCardinality <? length values); [discriminate|].
+  destruct (nodup_bytes values); [|discriminate]. cbv zeta. cbn [negb].
   destruct (ofold _ data (values, [])) as [r| |]; simpl; try discriminate.
   intro H. inversion H. eexists _, _, _. reflexivity.
 Qed.
@@ -105,6 +106,7 @@ Lemma enum_new_const_holds v n values c :
   enum_new_const v n values = Ok c -> is_ecol c = true /\ col_wf c = true /\ holds c (repeat (CEnum v) n).
 Proof.
   unfold enum_new_const. destruct (N.to_nat c_maxCardinality <? length values) eqn:Ec; [discriminate|].
+  destruct (nodup_bytes values); [|discriminate]. cbn [negb].
   apply Nat.ltb_ge in Ec. change (N.to_nat c_maxCardinality) with 255 in *. cbv zeta.
   destruct v as [b|].
   - destruct (find_value_last values b) as [r|] eqn:Ef.
@@ -205,14 +207,16 @@ Qed.
 Lemma create_column_no_panic d en : create_column d en <> Panic.
 Proof.
   assert (He : forall x vals, enum_new x vals <> Panic).
-  { intros x vals. rewrite enum_new_unfold. destruct (N.to_nat c_maxCardinality <? length vals); [discriminate|]. cbv zeta.
+  { intros x vals. rewrite enum_new_unfold. destruct (N.to_nat c_maxCardinality <? length vals); [discriminate|].
+    destruct (nodup_bytes vals); [|discriminate]. cbv zeta. cbn [negb].
     pose proof (enum_fold_no_panic (negb (length vals =? 0)) x (vals, [])) as Hp.
     destruct (ofold _ x (vals, [])); simpl; [discriminate|discriminate|congruence]. }
   destruct d as [x|x|x|x|x|v n|v n|v n|v n|]; simpl; try discriminate;
     try (destruct en; [apply He|discriminate]);
     try (destruct (n <? 0)%Z; discriminate).
   destruct (n <? 0)%Z; [discriminate|]. destruct en as [vals|]; [|discriminate].
-  unfold enum_new_const. destruct (N.to_nat c_maxCardinality <? length vals); [discriminate|]. cbv zeta.
+  unfold enum_new_const. destruct (N.to_nat c_maxCardinality <? length vals); [discriminate|].
+  destruct (nodup_bytes vals); [|discriminate]. cbv zeta. cbn [negb].
   destruct v as [b|]; [|discriminate]. destruct (find_value_last vals b); [discriminate|].
   destruct (negb (length vals =? 0)); [discriminate|]. destruct (N.to_nat c_maxCardinality <=? length vals); discriminate.
 Qed.
@@ -244,6 +248,7 @@ Lemma new_frame_unfold data order enums :
   if negb (forallb (fun kv => check_name (fst kv)) data) then Ok errf
   else if negb (Nat.eqb (length (new_order data order)) (length data)) then Ok errf
   else if negb (forallb (fun n => match assocb n data with Some _ => true | None => false end) (new_order data order)) then Ok errf
+  else if negb (nodup_bytes (new_order data order)) then Ok errf
   else match ofold (new_step data enums) (new_order data order) ([], 0, []) with
        | Ok (cs, len, used) =>
            if negb (forallb (fun kv => existsb (bytes_eqb (fst kv)) used) enums) then Ok errf
@@ -342,6 +347,7 @@ Definition new_valid (data : list (bytes * newdata)) (order : list bytes) (enums
   forallb (fun kv => check_name (fst kv)) data
   && Nat.eqb (length order') (length data)
   && forallb (fun n => match assocb n data with Some _ => true | None => false end) order'
+  && nodup_bytes order'
   && match order' with
      | [] => true
      | n0 :: _ => match col_for data enums n0 with
@@ -364,21 +370,29 @@ Proof.
   intros y Hy. apply H. right. exact Hy.
 Qed.
 
+(* a valid input has no name twice in the column order *)
+Lemma new_valid_nodup data order enums : new_valid data order enums = true -> NoDup (new_order data order).
+Proof.
+  unfold new_valid. cbv zeta. intro H. apply andb_true_iff in H as [H _]. apply andb_true_iff in H as [H _].
+  apply andb_true_iff in H as [_ H]. apply nodup_bytes_spec. exact H.
+Qed.
+
 Theorem new_frame_spec data order enums :
-  NoDup (new_order data order) ->
   if new_valid data order enums
   then exists f, new_frame data order enums = Ok f /\ ferr f = false
          /\ ix f = seq 0 (new_len data order enums)
          /\ Forall2 (new_col_ok data enums (new_len data order enums)) (new_order data order) (cols f)
   else new_frame data order enums = Ok (mkFrame [] [] true).
 Proof.
-  intro Hnd. rewrite new_frame_unfold. unfold new_valid, new_len. cbv zeta.
+  rewrite new_frame_unfold. unfold new_valid, new_len. cbv zeta.
   destruct (forallb (fun kv => check_name (fst kv)) data); [|reflexivity]. simpl negb. cbv iota. simpl andb.
   destruct (length (new_order data order) =? length data); [|reflexivity]. simpl negb. cbv iota. simpl andb.
   destruct (forallb (fun n => match assocb n data with Some _ => true | None => false end) (new_order data order)) eqn:Hknown;
     [|reflexivity]. simpl negb. cbv iota. simpl andb.
   assert (Hkn : forall n, In n (new_order data order) -> assocb n data <> None).
   { intros n Hn. rewrite forallb_forall in Hknown. specialize (Hknown n Hn). destruct (assocb n data); [discriminate|discriminate]. }
+  destruct (nodup_bytes (new_order data order)) eqn:Hndb; [|reflexivity]. simpl negb. cbv iota. simpl andb.
+  assert (Hnd : NoDup (new_order data order)) by (apply nodup_bytes_spec; exact Hndb).
   destruct (new_order data order) as [|n0 rest] eqn:Eo.
   - (* no columns *)
     simpl.
@@ -474,7 +488,7 @@ Qed.
    the columns are named and ordered as requested, column n holds exactly the cells of data[n] (null pointers
    as null, constants repeated), as enum iff n is string data declared in Enums *)
 Theorem new_frame_table data order enums :
-  NoDup (new_order data order) -> new_valid data order enums = true ->
+  new_valid data order enums = true ->
   exists f t, new_frame data order enums = Ok f /\ ferr f = false /\ wf_frame f = true
     /\ ix f = seq 0 (new_len data order enums) /\ abs f = Ok t
     /\ tnames t = new_order data order /\ length (trows t) = new_len data order enums
@@ -483,7 +497,8 @@ Theorem new_frame_table data order enums :
            /\ data_cells d (has_enum data enums n) = Some tc /\ tcolumn t n = Some tc
            /\ length (snd tc) = new_len data order enums.
 Proof.
-  intros Hnd Hv. pose proof (new_frame_spec data order enums Hnd) as H. rewrite Hv in H.
+  intros Hv. pose proof (new_frame_spec data order enums) as H. rewrite Hv in H.
+  assert (Hnd : NoDup (new_order data order)) by (apply (new_valid_nodup data order enums Hv)).
   destruct H as [f [Hf [Herr [Hix Hcols]]]].
   set (L := new_len data order enums) in *.
   assert (Hnames : col_names f = new_order data order).
@@ -532,9 +547,17 @@ Qed.
 
 (* every other input is rejected through Err *)
 Theorem new_frame_rejects data order enums :
-  NoDup (new_order data order) -> new_valid data order enums = false ->
+  new_valid data order enums = false ->
   new_frame data order enums = Ok (mkFrame [] [] true).
-Proof. intros Hnd Hv. pose proof (new_frame_spec data order enums Hnd) as H. rewrite Hv in H. exact H. Qed.
+Proof. intros Hv. pose proof (new_frame_spec data order enums) as H. rewrite Hv in H. exact H. Qed.
+
+(* in particular a ColumnOrder that names a column twice is rejected, whatever else is supplied *)
+Theorem new_frame_repeated_order_rejected data order enums :
+  ~ NoDup (new_order data order) -> new_frame data order enums = Ok (mkFrame [] [] true).
+Proof.
+  intro H. apply new_frame_rejects. destruct (new_valid data order enums) eqn:Hv; [|reflexivity].
+  exfalso. apply H. apply (new_valid_nodup data order enums Hv).
+Qed.
 
 (* ------------------------------------------------------------------ the default column order: sorted names *)
 
@@ -594,6 +617,26 @@ Proof.
   intros Hnd Hlen Hk. apply NoDup_Permutation_bis; [exact Hnd|rewrite map_length; lia|].
   intros n Hn. rewrite forallb_forall in Hk. specialize (Hk n Hn). apply assocb_in.
   destruct (assocb n data); [discriminate|discriminate].
+Qed.
+
+(* ... hence a valid input's order is a permutation of the keys *)
+Theorem new_valid_order_permutation data order enums :
+  new_valid data order enums = true -> Permutation (new_order data order) (map fst data).
+Proof.
+  intro Hv. pose proof (new_valid_nodup data order enums Hv) as Hnd.
+  unfold new_valid in Hv. cbv zeta in Hv. apply andb_true_iff in Hv as [Hv _]. apply andb_true_iff in Hv as [Hv _].
+  apply andb_true_iff in Hv as [Hv _]. apply andb_true_iff in Hv as [Hv Hk]. apply andb_true_iff in Hv as [_ Hl].
+  apply Nat.eqb_eq in Hl. apply new_order_permutation; assumption.
+Qed.
+
+(* New returns a frame without Err exactly for the valid inputs *)
+Theorem new_frame_iff data order enums :
+  new_valid data order enums = true <-> exists f, new_frame data order enums = Ok f /\ ferr f = false.
+Proof.
+  split.
+  - intro Hv. destruct (new_frame_table data order enums Hv) as [f [t [H1 [H2 _]]]]. exists f. auto.
+  - intros [f [Hf He]]. destruct (new_valid data order enums) eqn:Hv; [reflexivity|].
+    rewrite (new_frame_rejects data order enums Hv) in Hf. inversion Hf; subst. discriminate.
 Qed.
 
 Lemma new_order_default_nodup (data : list (bytes * newdata)) : NoDup (map fst data) -> NoDup (new_order data []).
